@@ -1015,6 +1015,28 @@ func (g GoVal) build() (v any, want *val.V, mustReject bool, spec bool) {
 		v = loudFloat(g.F)
 		x := val.Float(g.F)
 		want = &x
+	case "nodeInt", "nodeUint", "nodeNested":
+		// the value handed over as a prebuilt IPLD node (what a caller has after decoding something else): an integer,
+		// an unsigned integer, or one of them two levels down in a list in a map
+		var leaf val.V
+		if g.T == "nodeUint" || (g.T == "nodeNested" && g.U != 0) {
+			want, mustReject = okUint(g.U)
+			leaf = val.Uint(g.U)
+			if g.U <= math.MaxInt64 {
+				leaf = val.Int(int64(g.U))
+			}
+		} else {
+			want, mustReject = okInt(g.I)
+			leaf = val.Int(g.I)
+		}
+		if g.T == "nodeNested" {
+			leaf = val.Map(val.E("l", val.List(val.Str("x"), leaf)))
+			if want != nil {
+				w := val.Map(val.E("l", val.List(val.Str("x"), *want)))
+				want = &w
+			}
+		}
+		v = leaf.Node()
 	case "jsonNumber":
 		// a number of a JSON document decoded with UseNumber(): a string type whose text denotes a number. Kept as
 		// that text, or stored as the number the text denotes (an integer literal exactly; a decimal literal as the
@@ -1340,17 +1362,23 @@ func runVal(c *h.Ctx, vc ValCase) {
 	v, want, mustReject, spec := vc.V.build()
 	var node ipld.Node
 	var err error
+	storedAfterReject := ""
 	pn, pv, _ := h.Try(func() {
 		switch vc.API {
 		case "args":
 			a := args.New()
 			if err = a.Add("k", v); err == nil {
 				node, err = a.GetNode("k")
+			} else if n, gerr := a.GetNode("k"); gerr == nil || len(a.Keys) != 0 {
+				// "rejected" means not stored: the caller goes on using the same Args for the values that were accepted
+				storedAfterReject = fmt.Sprintf("args.Add returned %v, yet the Args holds key k = %v (keys %v)", err, n != nil, a.Keys)
 			}
 		case "meta":
 			m := meta.NewMeta()
 			if err = m.Add("k", v); err == nil {
 				node, err = m.GetNode("k")
+			} else if n, gerr := m.GetNode("k"); gerr == nil || len(m.Keys) != 0 {
+				storedAfterReject = fmt.Sprintf("meta.Add returned %v, yet the Meta holds key k = %v (keys %v)", err, n != nil, m.Keys)
 			}
 		case "args-builder":
 			var a *args.Args
@@ -1391,6 +1419,10 @@ func runVal(c *h.Ctx, vc ValCase) {
 			node, err = literal.Any(v)
 		}
 	})
+	if storedAfterReject != "" {
+		c.Fail("C10/value/rejected-but-stored/"+vc.API, "%s (Go value %s %+v)", storedAfterReject, vc.V.T, vc.V)
+		return
+	}
 	c.P.Class("val/type:" + vc.V.T)
 	c.P.Class("val/api:" + vc.API)
 	key := []any{"val", vc.V.T, magnitude(vc.V), vc.API, vc.V.Ptr, len(vc.V.L)}
@@ -1437,7 +1469,7 @@ func runVal(c *h.Ctx, vc ValCase) {
 
 var intEdges = []int64{0, 1, -1, 127, -128, 255, 32767, -32768, 65535, math.MaxInt32, math.MinInt32, math.MaxUint32, maxSafe - 1, maxSafe, maxSafe + 1, -maxSafe, -maxSafe - 1, math.MaxInt64, math.MinInt64, math.MaxInt64 - 1}
 var uintEdges = []uint64{0, 1, 255, 256, 65535, 65536, math.MaxUint32, maxSafe - 1, maxSafe, maxSafe + 1, math.MaxInt64, math.MaxInt64 + 1, math.MaxUint64 - 4, math.MaxUint64}
-var scalarTypes = []string{"int", "int8", "int16", "int32", "int64", "myInt", "uint", "uint8", "uint16", "uint32", "uint64", "uintptr", "myUint", "float64", "float32", "string", "myStr", "bool", "bytes", "nil", "struct", "chan", "func", "intkeymap", "nilptr", "loudInt", "loudStr", "loudSlice", "loudBool", "loudFloat", "jsonNumber", "duration"}
+var scalarTypes = []string{"int", "int8", "int16", "int32", "int64", "myInt", "uint", "uint8", "uint16", "uint32", "uint64", "uintptr", "myUint", "float64", "float32", "string", "myStr", "bool", "bytes", "nil", "struct", "chan", "func", "intkeymap", "nilptr", "loudInt", "loudStr", "loudSlice", "loudBool", "loudFloat", "jsonNumber", "duration", "nodeInt", "nodeUint", "nodeNested"}
 
 var numberTexts = []string{"0", "1", "-1", "-0", "9007199254740991", "9007199254740992", "-9007199254740992", "9223372036854775807", "9223372036854775808", "-9223372036854775808", "-9223372036854775809",
 	"18446744073709551615", "18446744073709551616", "12345678901234567891", "100000000000000000000000000000000000000", "1e3", "1E2", "1.5", "0.1", "2.50", "1e400", "-1e400", "1e-400", "12345678901234567891.5",
@@ -1451,7 +1483,12 @@ func drawScalar(t *rapid.T, label string) GoVal {
 		if rapid.IntRange(0, 3).Draw(t, label+"_numr") == 0 {
 			g.S = rapid.StringMatching(`-?[1-9][0-9]{0,24}(\.[0-9]{1,3})?(e[0-9]{1,2})?`).Draw(t, label+"_numx")
 		}
-	case strings.HasPrefix(g.T, "int") || g.T == "myInt" || g.T == "struct" || g.T == "bool" || g.T == "loudInt" || g.T == "loudBool" || g.T == "duration":
+	case g.T == "nodeUint" || g.T == "nodeNested":
+		g.U = rapid.SampledFrom(uintEdges).Draw(t, label+"_nu")
+		if g.T == "nodeNested" && rapid.Bool().Draw(t, label+"_nsigned") {
+			g.U, g.I = 0, rapid.SampledFrom(intEdges).Draw(t, label+"_ni")
+		}
+	case strings.HasPrefix(g.T, "int") || g.T == "myInt" || g.T == "struct" || g.T == "bool" || g.T == "loudInt" || g.T == "loudBool" || g.T == "duration" || g.T == "nodeInt":
 		if rapid.Bool().Draw(t, label+"_edge") {
 			g.I = rapid.SampledFrom(intEdges).Draw(t, label+"_ie")
 		} else {
@@ -1534,6 +1571,15 @@ func TestValueEdges(t *testing.T) {
 				valProp.One(t, ValCase{V: GoVal{T: "uintslice", L: []GoVal{{T: "uint", U: e}}}, API: api})
 				valProp.One(t, ValCase{V: GoVal{T: "map", L: []GoVal{{T: ty, U: e}}, K: []string{"x"}}, API: api})
 			}
+		}
+		// prebuilt IPLD nodes holding integers at every edge, alone and nested
+		for _, e := range intEdges {
+			valProp.One(t, ValCase{V: GoVal{T: "nodeInt", I: e}, API: api})
+			valProp.One(t, ValCase{V: GoVal{T: "nodeNested", I: e}, API: api})
+		}
+		for _, e := range uintEdges {
+			valProp.One(t, ValCase{V: GoVal{T: "nodeUint", U: e}, API: api})
+			valProp.One(t, ValCase{V: GoVal{T: "nodeNested", U: e}, API: api})
 		}
 		// numbers of a JSON document, alone and nested, through every API
 		for _, nt := range numberTexts {
